@@ -24,7 +24,10 @@ OV_EFAULTc == -129  OV_EIMPLc == -130
 HeaderCodes == {0, OV_EFAULTc, OV_ENOTVORBISc, OV_EBADHEADERc, OV_EVERSIONc, OV_EIMPLc}
 SynthCodes  == {0, OV_ENOTAUDIOc, OV_EBADPACKETc}
 
+\* mm is the blocking machine evolved by the MODEL ALONE since the last (re)start (never re-synchronised to the observation while `pure`):
+\* a slip in bookkeeping the caller cannot see at once (sample_count, granulepos) shows up as a wrong count later.
 InitDec == [nh |-> 0, live |-> FALSE, inited |-> FALSE, B |-> <<0, 0>>, hs |-> 0, hsdirty |-> FALSE, m |-> DecRestart(<<0, 0>>, 0),
+            mm |-> DecRestart(<<0, 0>>, 0), pure |-> FALSE,
             prev |-> -1, prevclean |-> FALSE, lastk |-> -1, chunkclean |-> FALSE, gpforced |-> FALSE]
 
 Observed(e, hs) == [lW |-> e.dlW, W |-> e.dW, centerW |-> e.dcw, cur |-> e.dcur, ret |-> e.dret, gp |-> e.dgp, seq |-> e.dseq, sc |-> e.dsc, eof |-> e.deof, hs |-> hs]
@@ -44,7 +47,7 @@ ChkHalfRate(s, e) ==
   (IF s.nh = 3 /\ e.flag # 0 /\ s.B[1] <= 64 /\ e.ret = 0 THEN {"HalfRateRefusedFor64"} ELSE {}) \cup
   (IF s.nh = 3 /\ (e.flag = 0 \/ s.B[1] > 64) /\ e.ret # 0 THEN {"HalfRateAccepted"} ELSE {}) \cup
   (IF s.nh = 3 /\ e.hsp # (IF e.ret = 0 THEN (IF e.flag # 0 THEN 1 ELSE 0) ELSE s.hs) /\ ~s.hsdirty THEN {"HalfRateFlagTakesEffect"} ELSE {})
-NxtHalfRate(s, e) == IF s.inited /\ e.ret = 0 /\ e.hsp # s.hs THEN [s EXCEPT !.hsdirty = TRUE, !.chunkclean = FALSE, !.prevclean = FALSE]
+NxtHalfRate(s, e) == IF s.inited /\ e.ret = 0 /\ e.hsp # s.hs THEN [s EXCEPT !.hsdirty = TRUE, !.chunkclean = FALSE, !.prevclean = FALSE, !.pure = FALSE, !.hs = e.hsp]
                      ELSE IF ~s.inited /\ e.ret = 0 THEN [s EXCEPT !.hs = e.hsp] ELSE s
 
 ChkSynthInit(s, e) ==
@@ -52,7 +55,8 @@ ChkSynthInit(s, e) ==
   (IF s.nh = 3 /\ e.ret # 0 THEN {"InitSucceedsAfterHeaders"} ELSE {}) \cup
   (IF s.nh < 3 /\ e.ret = 0 THEN {"InitNeedsAllHeaders"} ELSE {}) \cup
   (IF s.nh = 3 /\ e.ret = 0 /\ ~StateMatches(DecRestart(s.B, e.hsp), e) THEN {"FreshDecoderHoldsNothing"} ELSE {})
-NxtSynthInit(s, e) == IF e.ret = 0 THEN [s EXCEPT !.inited = TRUE, !.hs = e.hsp, !.hsdirty = FALSE, !.m = Observed(e, e.hsp), !.prev = -1, !.prevclean = FALSE, !.lastk = -1, !.chunkclean = FALSE] ELSE s
+NxtSynthInit(s, e) == IF e.ret = 0 THEN [s EXCEPT !.inited = TRUE, !.hs = e.hsp, !.hsdirty = FALSE, !.m = Observed(e, e.hsp), !.mm = DecRestart(s.B, e.hsp), !.pure = (s.nh = 3),
+                                                     !.prev = -1, !.prevclean = FALSE, !.lastk = -1, !.chunkclean = FALSE, !.gpforced = FALSE] ELSE s
 
 (* ---- audio packets ---- *)
 \* e.trk = TRUE for vorbis_synthesis_trackonly
@@ -64,15 +68,19 @@ ChkSynthesis(s, e, trk) ==
      (IF ok /\ e.mut = 0 /\ e.rs # 0 THEN {"ValidPacketDecodes"} ELSE {}) \cup
      (IF ok /\ e.rs = 0 /\ (e.rb = 0) # DecBlockinAllowed(s.m) THEN {"BlockinRefusedUntilRead"} ELSE {}) \cup
      (IF ok /\ e.rs = 0 /\ e.rb = 0 /\ e.W \in {0, 1} /\ e.avail # DecAvail(m1) THEN {"SamplesPerPacket"} ELSE {}) \cup
-     (IF e.rs = 0 /\ e.rb = 0 /\ ~DecBufOK(s.B, Observed(e, s.hs)) THEN {"BufferInsideRing"} ELSE {}) \cup
+     (IF ok /\ s.pure /\ e.rs = 0 /\ e.rb = 0 /\ e.W \in {0, 1} /\ DecBlockinAllowed(s.mm) /\ e.avail # DecAvail(DecBlockin(s.B, s.mm, e.W, e.no, e.gp, e.eos = 1, ~trk)) THEN {"SamplesPerPacket"} ELSE {}) \cup
+     (IF e.rs = 0 /\ e.rb = 0 /\ ~DecBufOK(s.B, Observed(e, e.hsp)) THEN {"BufferInsideRing"} ELSE {}) \cup
      (IF e.rs = 0 /\ e.rb = 0 /\ e.avail < 0 THEN {"PendingNeverNegative"} ELSE {})
 DriftSynthesis(s, e, trk) ==
   IF s.nh = 3 /\ ~s.hsdirty /\ e.rs = 0 /\ e.rb = 0 /\ e.W \in {0, 1} /\ ~StateMatches(DecBlockin(s.B, s.m, e.W, e.no, e.gp, e.eos = 1, ~trk), e)
   THEN {"DecoderStateDiffersFromTranscription"} ELSE {}
 NxtSynthesis(s, e, trk) ==
   IF e.rs = 0 /\ e.rb = 0
-  THEN IF trk THEN [s EXCEPT !.m = Observed(e, s.hs), !.prev = -1, !.prevclean = FALSE, !.chunkclean = FALSE, !.lastk = -1]    \* no audio was decoded: the overlap is stale
-       ELSE [s EXCEPT !.m = Observed(e, s.hs),
+  THEN LET mm1 == IF s.pure /\ e.W \in {0, 1} /\ DecBlockinAllowed(s.mm) THEN DecBlockin(s.B, s.mm, e.W, e.no, e.gp, e.eos = 1, ~trk) ELSE s.mm
+           p1  == s.pure /\ e.W \in {0, 1} /\ DecBlockinAllowed(s.mm) IN
+       IF trk THEN [s EXCEPT !.m = Observed(e, s.hs), !.mm = mm1, !.pure = p1, !.prev = -1, !.prevclean = FALSE, !.chunkclean = FALSE, !.lastk = -1,
+                             !.gpforced = (s.gpforced \/ e.gpf = 1)]    \* no audio was decoded: the overlap is stale
+       ELSE [s EXCEPT !.m = Observed(e, s.hs), !.mm = mm1, !.pure = p1, !.gpforced = (s.gpforced \/ e.gpf = 1),
                       !.chunkclean = (s.prev = e.k - 1 /\ s.prev >= 0 /\ s.prevclean /\ e.mut = 0 /\ ~s.hsdirty /\ e.W = e.cW),
                       !.lastk = e.k, !.prev = e.k, !.prevclean = (e.mut = 0 /\ ~s.hsdirty /\ e.W = e.cW)]
   ELSE [s EXCEPT !.m = IF s.inited THEN Observed(e, s.hs) ELSE s.m]      \* a rejected packet leaves the overlap of its predecessor in place
@@ -81,20 +89,28 @@ ChkPcmOut(s, e) ==
   (IF s.nh = 3 /\ e.n # DecAvail(s.m) THEN {"PcmOutReportsPending"} ELSE {}) \cup
   (IF e.n < 0 THEN {"PendingNeverNegative"} ELSE {}) \cup
   \* C11: samples that are the overlap of two undamaged neighbours equal the undisturbed decode wherever both exist
-  (IF s.nh = 3 /\ e.n > 0 /\ s.chunkclean /\ e.k = s.lastk /\ e.cmp = 3 THEN {"Locality"} ELSE {})
+  (IF s.nh = 3 /\ e.n > 0 /\ s.chunkclean /\ e.k = s.lastk /\ e.cmp = 3 THEN {"Locality"} ELSE {}) \cup
+  \* ... and, with honest granule positions, they are not fewer than in the undisturbed decode (more only when the end trim was forgotten)
+  (IF s.nh = 3 /\ s.chunkclean /\ ~s.gpforced /\ e.k = s.lastk /\ e.cn >= 0 /\ e.n < e.cn THEN {"LocalityCount"} ELSE {})
 
 ChkRead(s, e) ==
   (IF e.ret \notin {0, OV_EINVALc} THEN {"ReadReturnsDocumentedCode"} ELSE {}) \cup
   (IF s.nh = 3 /\ (e.ret = 0) # (e.n = 0 \/ (s.m.ret >= 0 /\ s.m.ret + e.n <= s.m.cur)) THEN {"ReadRefusesMoreThanPending"} ELSE {}) \cup
   (IF s.nh = 3 /\ e.ret = 0 /\ ~StateMatches(DecRead(s.m, e.n), e) THEN {"ReadAdvancesByCount"} ELSE {})
 NxtObs(s, e) == [s EXCEPT !.m = IF s.inited THEN Observed(e, s.hs) ELSE s.m]
+NxtRead(s, e) == [s EXCEPT !.m = IF s.inited THEN Observed(e, s.hs) ELSE s.m,
+                          !.mm = IF s.pure /\ e.ret = 0 /\ (e.n = 0 \/ (s.mm.ret >= 0 /\ s.mm.ret + e.n <= s.mm.cur)) THEN DecRead(s.mm, e.n) ELSE s.mm,
+                          !.pure = (s.pure /\ (e.ret # 0 \/ e.n = 0 \/ (s.mm.ret >= 0 /\ s.mm.ret + e.n <= s.mm.cur)))]
+\* operations the model does not transcribe (lapout moves the buffer): fall back to the observation
+NxtUnmodelled(s, e) == [s EXCEPT !.m = IF s.inited THEN Observed(e, s.hs) ELSE s.m, !.mm = IF s.inited THEN Observed(e, s.hs) ELSE s.mm]
 
 ChkRestart(s, e) ==
   (IF e.ret # 0 THEN {"RestartSucceeds"} ELSE {}) \cup
   (IF e.avail # 0 THEN {"RestartDropsPending"} ELSE {})
-NxtRestart(s, e) == [s EXCEPT !.m = Observed(e, e.hsp), !.hs = e.hsp, !.hsdirty = FALSE, !.prev = -1, !.prevclean = FALSE, !.chunkclean = FALSE, !.lastk = -1]
+NxtRestart(s, e) == [s EXCEPT !.m = Observed(e, e.hsp), !.mm = [DecRestart(s.B, e.hsp) EXCEPT !.lW = e.dlW, !.W = e.dW], !.pure = (s.nh = 3), !.hs = e.hsp, !.hsdirty = FALSE,
+                             !.prev = -1, !.prevclean = FALSE, !.chunkclean = FALSE, !.lastk = -1, !.gpforced = FALSE]
 
 ChkLapOut(s, e) ==
   (IF e.n < 0 THEN {"LapOutNonNegative"} ELSE {}) \cup
-  (IF ~DecBufOK(s.B, Observed(e, s.hs)) THEN {"BufferInsideRing"} ELSE {})
+  (IF ~DecBufOK(s.B, Observed(e, e.hsp)) THEN {"BufferInsideRing"} ELSE {})
 =============================================================================
